@@ -52,8 +52,8 @@ ASSUMPTIONS = [
     "forward = Spec over the reals is the theorem forward_eq_spec, so a disagreement between the real pipeline and the data can "
     "only come from the implementation (or from float accuracy, measured)",
     "ObjectPixelated has no public setter: the ground truth object is written to the optimised parameter `_obj.data`; the probe goes "
-    "through the public `probe` setter; ground-truth modes are orthogonal with strictly decreasing intensities so the library's "
-    "Gram-Schmidt hard constraint is the identity (checked each case)",
+    "through the public `probe` setter; ground-truth modes are orthogonal with distinct powers installed in descending, ascending, mixed "
+    "or nearly equal order, so the library's Gram-Schmidt + power-sort hard constraint may only re-order them (checked each case)",
     "scan rotation forced to 0 and transpose off via preprocess(force_com_rotation=0, force_com_transpose=False); descan learning off",
     "`constant`: decided only for cases whose fitted constant is within 2e-5 px of the pattern centre (generator: point-symmetric "
     "object, symmetric probe, symmetric raster); others are counted in input_distribution as constant.not-applicable",
@@ -197,6 +197,8 @@ def gen_cfg(rseed, index=0):
         "obj_kind": "smooth" if (com == "constant" and (r0 % 2 == 0 or r1 % 2 == 0)) else rng.choice(["rough", "rough", "smooth"]),
         "truth_seed": rng.next(),
     }
+    # order in which the mode powers are installed through the probe setter (no order in the quantifier)
+    cfg["mode_order"] = rng.weighted([("descending", 1), ("ascending", 2), ("mixed", 2), ("near-equal", 1)]) if K > 1 else "single"
     return cfg
 
 
@@ -233,7 +235,7 @@ def pipeline_case(ctx, drv, case, light=False):
     S, K = cfg["slices"], cfg["modes"]
     rng = Rng(cfg["truth_seed"])
     symmetric = cfg["com"] == "constant"
-    shown = {k: cfg[k] for k in ("roi", "scan", "samp", "step_px", "slices", "dz", "modes", "obj_type", "pad", "com", "energy", "counts", "aperture", "obj_kind")}
+    shown = {k: cfg[k] for k in ("roi", "scan", "samp", "step_px", "slices", "dz", "modes", "mode_order", "obj_type", "pad", "com", "energy", "counts", "aperture", "obj_kind")}
     case.update(shown)
     ctx.dist[f"roi.parity={psig(r0, r1)}"] += 1
     ctx.dist[f"roi={r0}x{r1}"] += 1
@@ -245,6 +247,7 @@ def pipeline_case(ctx, drv, case, light=False):
     ctx.dist[f"pad_requested={tuple(cfg['pad'])}"] += 1
     ctx.dist[f"step.dyadic={cfg['dyadic']}"] += 1
     ctx.dist[f"obj_kind={cfg['obj_kind']}"] += 1
+    ctx.dist[f"mode_order={cfg['mode_order']}"] += 1
 
     # ---- 1. geometry, read back from the real objects built on dummy data
     probes_c = cp.centred_probe(cfg, rng, symmetric)                       # (K, r0, r1) centred, complex128
@@ -352,10 +355,15 @@ def pipeline_case(ctx, drv, case, light=False):
     cp.install_truth(p, cfg, phi, probe_lib)
     lib_probe = p.probe_model.probe.detach().numpy().astype(np.complex128)
     ctx.count()
-    dprobe = maxabs(lib_probe - probe_lib) / np.sqrt(tot)
+    # the hard constraint (Gram-Schmidt + sort by power) must return the orthogonal ground-truth modes unchanged up to
+    # the strongest-first re-ordering; every later comparison uses the library's own order (the mode sum is order-free)
+    gt_sorted = cp.sort_modes_by_power(probe_lib)
+    powers_in = np.sum(np.abs(probe_lib) ** 2, axis=(-2, -1))
+    ctx.dist[f"installed_power_order.sorted_descending={bool(np.all(np.diff(powers_in) < 0)) if K > 1 else 'single'}"] += 1
+    dprobe = maxabs(lib_probe - gt_sorted) / np.sqrt(tot)
     ctx.stat_max("pred_reldist[probe hard constraint = identity on orthogonal modes]", dprobe)
     if dprobe > 1e-4:
-        ctx.disagree("probe-constraint-identity", case, "installed probe", f"changed by {dprobe:.3g}", "Gram-Schmidt moved an orthogonal ground-truth probe")
+        ctx.disagree("probe-constraint-identity", case, "installed probe", f"changed by {dprobe:.3g}", "Gram-Schmidt / power sort changed an orthogonal ground-truth probe (beyond re-ordering the modes)")
     lib_obj = p.obj_model.obj.detach().numpy()
     if cfg["obj_type"] == "potential":
         t_in = {"kind": "re", "obj": [[f2b(v) for v in lib_obj[s].astype(np.float64).reshape(-1).tolist()] for s in range(S)]}
